@@ -13,7 +13,7 @@ trap 'git -C /repo worktree remove --force $wt >/dev/null 2>&1; rm -rf $wt /tmp/
 git -C /repo worktree add -q --detach $wt HEAD || exit 3
 out=/tmp/govc_selftest_out_$$; mkdir -p $out
 run() { # prop -> prints summary line, returns govc rc
-  local extra=""; [ "$1" = C11 ] && extra="-sweep"
+  local extra=""; case "$1" in C11|C15|C17) extra="-sweep";; esac
   ./bin/govc -repo $wt -specs ./specs -state $PWD -out $out -prop "$1" -tier quick -noreplay -timeout 10 $extra 2>&1
 }
 fail=0
